@@ -29,6 +29,10 @@ Definition val_of_inv (i : inv) : val :=
 Definition bibl_of_val (v : val) : Z :=
   match lval v with z :: _ => zval z | [] => default_bytes_in_last_block end.
 
+Definition tree_free_mode : free_mode :=
+  if free_closes_filters_when_fatal then FreeClosesFilters
+  else if client_free_closes_open_client then FreeClientReleases else FreeSkips.
+
 Definition run_plan (l : list val) : val :=
   let bs := effective_bpb default_bytes_per_block (zval (vnth l 1)) in
   let bibl := bibl_of_val (vnth l 2) in
@@ -36,7 +40,7 @@ Definition run_plan (l : list val) : val :=
   let pl := map resp_of_val (lval (vnth l 4)) in
   let ops := map op_of_val (lval (vnth l 5)) in
   let '(a0, ost) := api_open bibl oret false pl in
-  let '(a1, res) := api_run plan_cb client_free_closes_open_client bs a0 ops in
+  let '(a1, res) := api_run plan_cb tree_free_mode bs a0 ops in
   VL [VI ost;
       VL (map (fun r : api * list inv * Z =>
                  let '(_, tr, st) := r in VL [VI st; VL (map val_of_inv tr)]) res);
@@ -48,7 +52,7 @@ Definition run_mem (l : list val) : val :=
   let size := Z.to_nat (zval (vnth l 3)) in
   let ops := map op_of_val (lval (vnth l 4)) in
   let '(a0, ost) := api_open bibl ARCHIVE_OK true (mkMem 0 size []) in
-  let '(a1, res) := api_run memory_write client_free_closes_open_client bs a0 ops in
+  let '(a1, res) := api_run memory_write tree_free_mode bs a0 ops in
   VL [VI ost;
       VL (map (fun r : api * list inv * Z =>
                  let '(a, _, st) := r in VL [VI st; VI (Z.of_nat (m_used (a_cb a)))]) res);
